@@ -32,6 +32,37 @@ T = {
  'C19-m2': ('C19', 'zero accumulated reward not written after payout: stale value re-read after restart / at payout heights', 'C19 accrual/absent'),
  'C29-m1': ('C29', 'empty leaf values not restored: needs an empty-valued leaf (open order / payout block) at the snapshot height', 'C29 restore-rejected'),
  'C29-m2': ('C29', 'validators record missing from snapshots: shows only when a validator leaves right after the restore', 'C29 restored-query-differs/validators'),
+ # batch 3
+ 'C05-m1': ('C05', 'full 1000-slot candidate and two delegations in one period of which the later, smaller one no longer fits at recalculation: the kicked stake is credited to another account', 'C05 (after the slots family with delegations between the two smallest stakes was added); first run missed'),
+ 'C05-m2': ('C05', 'multisig duplicate detection keyed by signature value: needs two DIFFERENT valid signatures of one owner (random-k ECDSA)', 'C05 threshold/duplicate-signer (after random-nonce duplicate signatures were added to the signer); first run missed'),
+ 'C12-m1': ('C12', 'crr=100 branch of CalculateSaleAmount with supply != reserve, exact-amount direction', 'C12 reference-model mismatch (high-precision reference)'),
+ 'C12-m2': ('C12', 'sell-everything special case compares with the wrong variable: sell amount == reserve as integers, or whole supply with a >= 2^100 non-representable reserve', 'C12 reference-model mismatch (aimed equalities)'),
+ 'C13-m1': ('C13', 'sell-side trade that completely fills two orders at two different prices and continues in the reserves', 'C13 k-decreased / reserves-vs-balance'),
+ 'C13-m2': ('C13', 'AddLiquidity worth less than one pool token in a pool created with unequal volumes', 'C13 liquidity-minted-for-less'),
+ 'C14-m1': ('C14', 'partial fill and closing (cancel / expiry) of the same order inside ONE block refunds the on-disk amount', 'C14 refund-mismatch; also C01'),
+ 'C14-m2': ('C14', 'two uncommitted orders whose prices differ by less than 2^-53 relative, higher id with the better exact price', 'C14 priority-violated'),
+ 'C15-m1': ('C15', 'SellSwapPool over 3..5 coins with the fee pool as a LATER hop and the minimum inside a 0.03% window', 'C15 limit/pool-sell (across-the-boundary trades on probed outcomes)'),
+ 'C15-m2': ('C15', 'fee conversion filled from an order at the pool price and the same pool traded by the route: the simulated fee conversion forgets the orders it consumed. (The author wrote it for the buy branch of AddLastSwapStepWithOrders; after fix c93b8c2 the swaps use the sell branch, so the identical slip was moved to that branch - patch.orig.diff is the original.)', 'C15 limit/pool-buy and pool-sell, off-by-more (after the aimed fee-pool scenario was added; that scenario also exposed the genuine defect fixed by c93b8c2); first runs missed'),
+ 'C20-m1': ('C20', 'halt decision uses the presence of the previous block: needs a validator whose presence differs between H-1 and H', 'C20 halt-decision (seed 2 of 2)'),
+ 'C20-m2': ('C20', 'duplicate update-vote check only in the process cache: vote, restart, same candidate votes again', 'C20 duplicate-vote-accepted (after restarts and late duplicate votes were added); first run missed'),
+ # batch 4
+ 'C21-m1': ('C21', 'proof for which key recovery fails (recovery id >= 4, r/s zero or out of range) accepted', 'C21 invalid-redemption-accepted/proof-not-made-with-password'),
+ 'C21-m2': ('C21', 'used checks garbled at import: redeem, export, InitChain from the export, redeem again', 'C21 redeemed-twice/after-genesis-roundtrip'),
+ 'C22-m1': ('C22', 'coin counter not marked dirty: creation, restart before any other App-model change, creation again reuses the id', 'C22 id-reused / new-id-not-next (after process restarts were added to the C22 workload); first run missed'),
+ 'C22-m2': ('C22', 'second recreation of a ticker repeats version 1', 'C22 version-reused'),
+ 'C23-m1': ('C23', 'rlp accepts a 55-byte string with the long header B8 37', 'C23 canonical/tx/accepted-noncanonical'),
+ 'C23-m2': ('C23', 'V > 255 with low byte 27/28 accepted (truncation before validation)', 'C23 invalid-signature-accepted/tx-single|tx-multi/bad-v'),
+ 'C24-m1': ('C24', 'address table count persisted one short: after a reopen the newest address is lost and its id reused', 'C24 roundtrip (reopen schedules)'),
+ 'C24-m2': ('C24', 'unbond event without validator key inherits the key of the preceding event of its height', 'C24 roundtrip/minter/UnbondEvent'),
+ 'C25-m1': ('C25', 'pair cache filled under a read lock: concurrent queries for never-seen pairs', 'C25 process-died-under-query-load (fatal error: concurrent map ...) and execution-differs'),
+ 'C25-m2': ('C25', 'first pool-list / route query of a process overwrites live pools with their committed version when it arrives between DeliverTx and Commit', 'C25 execution-differs-under-query-load'),
+ 'C26-m1': ('C26', 'RedeemCheck advances the wrong nonce: replayed redemption fails in Run and charges the issuer each time', 'C26 replay-charged|replay-accepted/first-delivery-accepted'),
+ 'C26-m2': ('C26', 'nonce not marked dirty for accounts already on disk: first delivery, restart, replay accepted', 'C26 replay-accepted/first-delivery-accepted'),
+ 'C27-m1': ('C27', 'dearer of the two fee routes charged: gas coin with both a reserve and a BIP pool', 'C27 route'),
+ 'C27-m2': ('C27', 'ticker burn multiplied by the gas price after the pool conversion: custom-coin price table + create coin/token + gas price > 1', 'C27 ticker-burn'),
+ 'C28-m1': ('C28', 'price record keeps Off=true when recovery completes: drop >= 10%, full recovery, then a large rise at the very next update', 'C28 price-record-wrong/update/recovery-complete (1 of 2 seeds)'),
+ 'C28-m2': ('C28', 'emission counter counts only the validators share in off/recovery periods', 'C28 emission-step-wrong'),
+
 }
 import sys
 for sid, (prop, needs, caught) in T.items():
